@@ -254,9 +254,54 @@ class CQuoter:
         self._utf8_bytes()
         self._utf8_surrogates()
         self._advance()
+        self._writer_contract()
         from .unquoters import read_bounds
         for q in (f"{MOD}._Quoter._do_quote", f"{MOD}._Quoter._do_quote_or_skip"):
             read_bounds(self.ctx, self.model, self.model.func(q), self.res[q])
+
+    def _writer_contract(self):
+        """EM-CQ-WRITER: the audits above read `_write_char(writer, ch, changed)` as "stores ch and records `changed`". Here the
+        primitive itself is held to that: every success return (a non-negative constant) has stored the `ch` argument through the
+        writer's buffer and has accumulated the `changed` argument into writer.changed - on every path, the buffer-growth branch
+        included. A path that forgets the flag lets the quoter return its input although a byte written at a growth boundary
+        differs from it."""
+        ctx = self.ctx
+        rule = "EM-CQ-WRITER"
+        ctx.rule(rule, floor=1, what="every success path of the byte writer stores the unit and accumulates the changed flag")
+        q = f"{MOD}._write_char"
+        fi = self.model.func(q)
+        tr = lambda kind, t: kind in ("store_attr", "store_sub")
+        r = analyze(self.model, fi, trace=tr, trace_key="writer-contract", merge=False)
+        params = fi.params
+        if len(params) != 3:
+            raise AnalysisError("_write_char does not take (writer, unit, changed) (unknown idiom)")
+        W, CH, CHG = (("param", p) for p in params)
+        groups = {}
+        for s, v, node in r.returns:
+            if not (v[0] == "const" and isinstance(v[1], int) and not isinstance(v[1], bool) and v[1] >= 0):
+                continue
+            stored = any(t[0] == "store" and t[1][0] == "sub" and any(x == CH for x in walk(t[2])) for t in s.trace)
+            hv = s.heap.get((W, "changed"))
+            flag = truth(CHG, s.facts)
+            # old flag OR argument (`|=`, `or`), or nothing to record (argument false), or set outright under a true argument
+            acc = (hv is not None and any(x == CHG for x in walk(hv)) and any(x == ("attr", W, "changed") for x in walk(hv))) or \
+                flag is False or (flag is True and hv is not None and hv[0] == "const" and bool(hv[1]))
+            groups.setdefault(id(node), [node, [], []])
+            groups[id(node)][1].append(stored)
+            groups[id(node)][2].append(acc)
+        if not groups:
+            raise AnalysisError("_write_char has no success return (anchor vanished)")
+        for node, stored, acc in groups.values():
+            ctx.instance(rule)
+            ctx.ob(rule, q, "success return: unit stored", all(stored),
+                   "a success path of the byte writer has not stored its unit through the buffer: a character is missing from the output",
+                   where(fi, node), sample="writer.buf[writer.pos] = ch on the path")
+            ctx.instance(rule)
+            ctx.ob(rule, q, "success return: changed accumulated", all(acc),
+                   "a success path of the byte writer does not fold its `changed` argument into writer.changed: when that write is "
+                   "the only difference from the input (a space written as '+', a decoded escape) the quoter returns the input "
+                   "unchanged - only at the positions where this path is taken (the 8 KiB growth boundaries)",
+                   where(fi, node), sample="writer.changed |= changed on the path")
 
     def _unit_do_quote(self, r):
         # PyUnicode_READ(kind, data, <idx phi>)
